@@ -5,6 +5,8 @@
  *   tok   <d> <s> = [[..],..]        spif_tok_new_from_ptr(s) (+ set_sep(d)) + spif_tok_eval + token list
  *   tok_eval <d> <s> = [[..],..]     spif_tok_set_src(T, s) + spif_tok_set_sep(T, d or NULL) + spif_tok_eval(T) on the ONE tok
  *                                    object T of this script (created by its first tok_eval, deleted at the end): histories
+ *   split_rep | tok_rep <d> <B> <K> = {first=[[..],..],n=N,periodic=T|F}   the function on B repeated K times (long counts)
+ *   words_rep <B> <K> <[i,..]>      = {n=N,p=[..],w=[[..],..]}             num_words(B^K), get_word / get_pword at the indices
  *   words <s>     = {n=N,p=[..],w=[[..],..]}   num_words(s); get_word(i,s), get_pword(i,s) for i = 1..N
  *                                    (p: offset into s, -1 = NULL; w: "-" inside the list = NULL);
  *                                    indices 0 and N+1 are called too, for the sanitizer only
@@ -99,6 +101,72 @@ static const char *do_step(const vh_step_t *st, vh_sb *ret, vh_sb *state) {
         free(d); free(s);
         if (!spif_tok_eval(T)) return "tok_eval=FALSE";
         if ((bad = tok_readout(T, ret))) return bad;
+    } else if ((!strcmp(op, "split_rep") || !strcmp(op, "tok_rep")) && st->nargs == 3) {
+        /* long counts: the block B repeated K times (K * tokens-of-B tokens, 65 536 and more); reported compactly:
+         * {first=[the first N/K tokens],n=N,periodic=T|F}   periodic: token i equals token i mod (N/K) for every i */
+        size_t bl; unsigned char *d = cu_text(st->args[0], NULL), *b = cu_text(st->args[1], &bl), *src;
+        long k = vh_int(st->args[2]), i, n = 0, per; int periodic = 1; unsigned char **tk = NULL; spif_tok_t t = (spif_tok_t) NULL;
+        spif_charptr_t *l = NULL;
+        if (k < 1 || bl < 1) { free(d); free(b); return "bad_case:rep"; }
+        src = (unsigned char *) malloc(bl * (size_t) k + 1);
+        for (i = 0; i < k; i++) memcpy(src + (size_t) i * bl, b, bl);
+        src[bl * (size_t) k] = 0;
+        if (op[0] == 's') {
+            l = spiftool_split((spif_charptr_t) d, (spif_charptr_t) src);
+            if (l) for (n = 0; l[n]; n++);
+            tk = (unsigned char **) l;
+        } else {
+            spif_list_t tl;
+            t = spif_tok_new_from_ptr((spif_charptr_t) src);
+            if (SPIF_TOK_ISNULL(t)) { free(d); free(b); free(src); return "tok_new_from_ptr=NULL"; }
+            if (d) spif_tok_set_sep(t, spif_str_new_from_ptr((spif_charptr_t) d));
+            if (!spif_tok_eval(t)) { spif_tok_del(t); free(d); free(b); free(src); return "tok_eval=FALSE"; }
+            tl = spif_tok_get_tokens(t);
+            n = SPIF_LIST_ISNULL(tl) ? 0 : (long) SPIF_LIST_COUNT(tl);
+            if (n > 0) {
+                spif_obj_t *arr = SPIF_LIST_TO_ARRAY(tl);        /* one pass instead of n indexed walks of the linked list */
+                tk = (unsigned char **) malloc(sizeof(*tk) * (size_t) n);
+                for (i = 0; i < n; i++) {
+                    spif_str_t e = (spif_str_t) arr[i];
+                    tk[i] = (unsigned char *) (SPIF_STR_ISNULL(e) ? "" : (e->s ? (char *) e->s : ""));
+                }
+                FREE(arr);
+            }
+        }
+        per = (n > 0 && n % k == 0) ? n / k : 0;
+        if (!per) periodic = 0;
+        for (i = per; periodic && i < n; i++) if (strcmp((char *) tk[i], (char *) tk[i % per])) periodic = 0;
+        sb_puts(ret, "{first=[");
+        for (i = 0; i < (per ? per : (n < 8 ? n : 8)); i++) { if (i) sb_putc(ret, ','); sb_cstr(ret, tk[i]); }
+        sb_printf(ret, "],n=%ld,periodic=%c}", n, periodic ? 'T' : 'F');
+        if (op[0] == 's') {
+            if (l) { for (i = 0; l[i]; i++) { FREE(l[i]); } FREE(l); }
+        } else {
+            free(tk);
+            spif_tok_del(t);
+        }
+        free(d); free(b); free(src);
+    } else if (!strcmp(op, "words_rep") && st->nargs == 3) {
+        /* num_words(B^K) and get_word / get_pword at the listed indices: {n=N,p=[..],w=[[..],..]} */
+        size_t bl; unsigned char *b = cu_text(st->args[0], &bl), *src; long k = vh_int(st->args[1]), i; static long ix[64]; int ni, q;
+        vh_sb w = {0, 0, 0};
+        if (k < 1 || bl < 1) { free(b); return "bad_case:rep"; }
+        ni = vh_intlist(st->args[2], ix, 64); if (ni > 64) ni = 64;
+        src = (unsigned char *) malloc(bl * (size_t) k + 1);
+        for (i = 0; i < k; i++) memcpy(src + (size_t) i * bl, b, bl);
+        src[bl * (size_t) k] = 0;
+        sb_printf(ret, "{n=%lu,p=[", spiftool_num_words((spif_charptr_t) src));
+        sb_need(&w, 16); sb_reset(&w);
+        for (q = 0; q < ni; q++) {
+            spif_charptr_t g = spiftool_get_word((unsigned long) ix[q], (spif_charptr_t) src);
+            spif_charptr_t pw = spiftool_get_pword((unsigned long) ix[q], (spif_charptr_t) src);
+            if (q) { sb_putc(ret, ','); sb_putc(&w, ','); }
+            sb_int(ret, pw ? (long) ((unsigned char *) pw - src) : -1L);
+            sb_cstr(&w, (unsigned char *) g);
+            if (g) FREE(g);
+        }
+        sb_puts(ret, "],w=["); sb_puts(ret, w.p ? w.p : ""); sb_puts(ret, "]}");
+        free(w.p); free(b); free(src);
     } else if (!strcmp(op, "words") && st->nargs == 1) {
         size_t len; unsigned char *s = cu_text(st->args[0], &len);
         unsigned long n = spiftool_num_words((spif_charptr_t) s), i;
@@ -147,6 +215,21 @@ static const char *do_step(const vh_step_t *st, vh_sb *ret, vh_sb *state) {
                 }
             }
             free(orig);
+        }
+        /* C: an index far beyond the words (the class "huge index" of Quote.tla: 2^31, 2^32 + k, 2^63, ULONG_MAX ...) finds no
+         * word, however it is narrowed or wrapped inside */
+        {
+            static const unsigned long huge[] = { 0x7fffffffUL, 0x80000000UL, 0xffffffffUL, 0x100000000UL, 0x100000001UL, 0x100000002UL,
+                                                  0x200000001UL, 1UL << 40, (1UL << 62) + 1, 0x7fffffffffffffffUL, 0x8000000000000000UL,
+                                                  0x8000000000000001UL, ~0UL - 1, ~0UL, 65535UL, 65536UL, 65537UL };
+            unsigned q;
+            for (q = 0; q < sizeof(huge) / sizeof(huge[0]); q++) {
+                spif_charptr_t g;
+                if (huge[q] < n + 2) continue;
+                g = spiftool_get_word(huge[q], (spif_charptr_t) s);
+                if (g) { FREE(g); free(s); return "get_word(huge_index)!=NULL"; }
+                if (spiftool_get_pword(huge[q], (spif_charptr_t) s)) { free(s); return "get_pword(huge_index)!=NULL"; }
+            }
         }
         /* out-of-range indices: no claim about the value, but no access outside the text either */
         {
